@@ -251,6 +251,13 @@ class NumEval:
             if c is False:
                 return b
             j = join(a, b)
+            tt = t[1][2] if (t[1][0] == 'un' and t[1][1] == 'not') else t[1]
+            if tt[0] == 'call' and (callee(tt) or '') in ('builtins.isinstance',
+                                                         'torch.is_tensor'):
+                # a dispatch on the TYPE of a value (number vs tensor): its outcome does not
+                # change while the value varies, so each world keeps its own direction and the
+                # join is monotone wherever both arms are
+                return j
             for x in self.cond_inputs(t[1], d):
                 # zero-guard lemma on a conditional expression:  g(x) if x != 0 else 0
                 if self.zero_guard(t[1], x, d) and self._is_zero_branch(t, d) and \
